@@ -61,6 +61,7 @@ def run(prop, tier, seed, repo, jobs):
     solver_s = 0.0
     paths = 0
     validated = 0
+    cross = []
     for sc, res in zip(scs, results):
         if res['error']:
             inconclusive.append('%s: %s' % (sc.name, res['error']))
@@ -68,6 +69,10 @@ def run(prop, tier, seed, repo, jobs):
         fns |= set(res['functions'])
         paths += res['paths']
         solver_s += res.get('solver_s', 0)
+        for cc in res.get('cross_checks', []):
+            cross.append({'scenario': sc.name, 'obligation': cc.get('obligation'), 'results': cc.get('results'), 'agree': cc.get('agree')})
+            if cc.get('agree') is False:
+                inconclusive.append('%s: %s: solvers disagree: %s' % (sc.name, cc.get('obligation'), cc.get('results')))
         if res.get('witness_skipped_paths', 0) == 0 and prop in ('C02', 'C03', 'C05'):
             inconclusive.append('%s: vacuity: no path of run #2 is Skipped' % sc.name)
         for ob in res['obligations']:
@@ -219,6 +224,7 @@ def run(prop, tier, seed, repo, jobs):
         'samples': samples or [{'note': 'none'}], 'functions_encoded': sorted(fns),
         'bounds': [{'scenario': s.name, 'paths_universe': s.paths, 'chunks_per_file': s.nchunks} for s in scs],
         'traces_validated_against_impl': validated, 'native_probes': native_probes,
+        'solver_cross_check': {'what': 'two discharged path queries per scenario re-decided by z3 5.1.0 and cvc5 1.0.3 on the SMT-LIB2 dump', 'queries': len(cross), 'agree': sum(1 for c in cross if c['agree'] is True), 'disagree': sum(1 for c in cross if c['agree'] is False), 'undecided': sum(1 for c in cross if c['agree'] is None), 'samples': cross[:4]},
         'outside_claim': ['hash collisions', 'files outside the path universe / more files than the universe', 'mtime granularity of real file systems', 'bincode internals (prefix-undecodability assumed)'],
         'exhaustive': False,
     }
